@@ -26,12 +26,13 @@ def patch_clients(pkg, samples, gs, hs, rest_only):
     google.auth.default = lambda *a, **k: (AnonymousCredentials(), "loopback-project")
     done = set()
     for s in samples:
-        key = (s["service_module"], s["client"])
+        key = (s.get("package"), s["service_module"], s["client"])
         if key in done:
             continue
         done.add(key)
-        mod = importlib.import_module(f"{pkg}.services.{s['service_module']}")
-        tm = D.transports_module(pkg, s["service_module"])
+        spkg = s.get("package") or pkg          # services of a proto sub-package live in a sub-package of the library
+        mod = importlib.import_module(f"{spkg}.services.{s['service_module']}")
+        tm = D.transports_module(spkg, s["service_module"])
         cls = getattr(mod, s["client"])
         is_async = s["client"].endswith("AsyncClient")
 
@@ -151,6 +152,8 @@ def main():
     out = {"import_ok": True, "results": [], "introspection": []}
     gs, hs = D.GrpcLoopback(), D.HttpLoopback()
     try:
+        for pre in payload.get("preimport", []):      # e.g. the unversioned alias package, when a dependency lives under it
+            importlib.import_module(pre)
         importlib.import_module(payload["package"])
         patch_clients(payload["package"], payload["samples"], gs, hs, payload.get("rest_only", False))
     except Exception:  # noqa
